@@ -27,7 +27,7 @@ ASSUMPTIONS = ['ECDSA ideal: verify passes iff the signature was produced by sig
 
 
 def newkey(name):
-    return crypto.EllipticCurvePrivateKey(crypto_m.new_private_key(name))
+    return proto.new_key(name)
 
 
 def hello_payload(eph_pub, salt, token):
